@@ -20,11 +20,14 @@ type ChainProg struct {
 	Chains []ChainInfo
 }
 
-var chainKinds = []string{"func", "valmethod", "ptrmethod", "genfunc", "genmethod", "closurevar", "nested", "deferred", "goroutine", "golit", "deferlit", "iife"}
+var chainKinds = []string{"func", "valmethod", "ptrmethod", "genfunc", "genmethod", "closurevar", "nested", "deferred", "goroutine", "golit", "deferlit", "iife", "methodvalue", "methodexpr", "ifacecall", "promoted", "fieldfunc"}
 
 func genChainProg(r *rand.Rand, nchains int, kinds []string) *ChainProg {
 	mod := "zqchain" + randLower(r, 5) + ".example.com/tr"
 	pkgs := []string{"main", "zqliba", "zqlibb"}
+	// zqlibb lives in a directory whose name contains a dot (like gopkg.in/yaml.v2): the toolchain
+	// escapes the last element of such a path in symbol names ("…/zqlibb%2ev2.Func") but not in positions.
+	dirOf := map[string]string{"main": "", "zqliba": "zqliba", "zqlibb": "zqlibb.v2"}
 	// per package, two files
 	bodies := map[string]*strings.Builder{}
 	for _, p := range pkgs {
@@ -127,6 +130,21 @@ func genChainProg(r *rand.Rand, nchains int, kinds []string) *ChainProg {
 				fmt.Fprintf(b, "//go:noinline\nfunc %[1]s(k int) int {\n\tf := func(a int) int {\n\t\tg := func(b int) int {\n\t\t\treturn %[2]s(b) + 1\n\t\t}\n\t\treturn g(a) + 1\n\t}\n\treturn f(k) + 1\n}\n\n", names[i], next)
 			case "deferred":
 				fmt.Fprintf(b, "//go:noinline\nfunc zqdef%[1]d_%[2]d(k int, r *int) {\n\t*r = %[4]s(k) + 1\n}\n\n//go:noinline\nfunc %[3]s(k int) (r int) {\n\tdefer zqdef%[1]d_%[2]d(k, &r)\n\tk++\n\treturn k\n}\n\n", ci, i, names[i], next)
+			case "methodvalue":
+				// bound method value: the -fm wrapper is hidden from traces, the method frame is not
+				fmt.Fprintf(b, "type %[1]s struct{ n int }\n\n//go:noinline\nfunc (t %[1]s) zqmv(k int) int {\n\treturn %[3]s(k+t.n) + 1\n}\n\n//go:noinline\nfunc %[2]s(k int) int {\n\tf := %[1]s{n: 2}.zqmv\n\treturn f(k) + 1\n}\n\n", tname, names[i], next)
+			case "methodexpr":
+				fmt.Fprintf(b, "type %[1]s struct{ n int }\n\n//go:noinline\nfunc (t *%[1]s) ZqME(k int) int {\n\treturn %[3]s(k+t.n) + 1\n}\n\n//go:noinline\nfunc %[2]s(k int) int {\n\tf := (*%[1]s).ZqME\n\treturn f(&%[1]s{n: 3}, k) + 1\n}\n\n", tname, names[i], next)
+			case "ifacecall":
+				// dynamic call through an interface with an unexported method
+				fmt.Fprintf(b, "type %[1]sI interface{ zqim(int) int }\n\ntype %[1]s struct{ n int }\n\n//go:noinline\nfunc (t *%[1]s) zqim(k int) int {\n\treturn %[3]s(k+t.n) + 1\n}\n\n//go:noinline\nfunc %[2]s(k int) int {\n\tvar i %[1]sI = &%[1]s{n: 4}\n\treturn i.zqim(k) + 1\n}\n\n", tname, names[i], next)
+			case "promoted":
+				// method promoted from an embedded pointer, called through an interface: the generated
+				// wrapper Outer.ZqProm is hidden, (*Inner).ZqProm is the visible frame
+				fmt.Fprintf(b, "type %[1]sIn struct{ n int }\n\n//go:noinline\nfunc (t *%[1]sIn) ZqProm(k int) int {\n\treturn %[3]s(k+t.n) + 1\n}\n\ntype %[1]s struct {\n\t*%[1]sIn\n\tzqpad int\n}\n\n//go:noinline\nfunc %[2]s(k int) int {\n\tvar i interface{ ZqProm(int) int } = %[1]s{%[1]sIn: &%[1]sIn{n: 5}}\n\treturn i.ZqProm(k) + 1\n}\n\n", tname, names[i], next)
+			case "fieldfunc":
+				// function literal stored in a struct field of a package-level variable
+				fmt.Fprintf(b, "type %[1]s struct{ zqfn func(int) int }\n\nvar zqff%[4]d_%[5]d = %[1]s{zqfn: func(k int) int {\n\treturn %[3]s(k) + 1\n}}\n\n//go:noinline\nfunc %[2]s(k int) int {\n\treturn zqff%[4]d_%[5]d.zqfn(k) + 1\n}\n\n", tname, names[i], next, ci, i)
 			case "goroutine":
 				fmt.Fprintf(b, "//go:noinline\nfunc zqgo%[1]d_%[2]d(k int, done chan int) {\n\tdone <- %[4]s(k) + 1\n}\n\n//go:noinline\nfunc %[3]s(k int) int {\n\tdone := make(chan int)\n\tgo zqgo%[1]d_%[2]d(k, done)\n\treturn <-done\n}\n\n", ci, i, names[i], next)
 			}
@@ -139,9 +157,9 @@ func genChainProg(r *rand.Rand, nchains int, kinds []string) *ChainProg {
 	hdr := func(pkg string) string {
 		imports := []string{"\"fmt\"", "\"os\"", "\"runtime\"", "\"runtime/debug\""}
 		if pkg == "main" {
-			imports = append(imports, "\""+mod+"/zqliba\"", "\""+mod+"/zqlibb\"")
+			imports = append(imports, "\""+mod+"/zqliba\"", "\""+mod+"/"+dirOf["zqlibb"]+"\"")
 		} else if pkg == "zqliba" {
-			imports = append(imports, "\""+mod+"/zqlibb\"")
+			imports = append(imports, "\""+mod+"/"+dirOf["zqlibb"]+"\"")
 		}
 		keep := "var (\n\t_ = fmt.Sprint\n\t_ = os.Args\n\t_ = runtime.NumCPU\n\t_ = debug.SetGCPercent\n"
 		if pkg == "main" {
@@ -154,7 +172,7 @@ func genChainProg(r *rand.Rand, nchains int, kinds []string) *ChainProg {
 	}
 	files := map[string]string{"go.mod": "module " + mod + "\n\ngo 1.26\n"}
 	for _, p := range pkgs {
-		dir := p + "/"
+		dir := dirOf[p] + "/"
 		if p == "main" {
 			dir = ""
 		}
